@@ -279,24 +279,39 @@ func (e *Env) tsi(id uint64) *tsi1.Index {
 	return t
 }
 
-// CompactTSI asks every tsi1 index for a compaction and waits until the
-// partitions are quiet.
-func (e *Env) CompactTSI() {
-	for _, id := range e.ShardIDs {
-		if t := e.tsi(id); t != nil {
-			for round := 0; round < 4; round++ {
-				t.Compact()
-				t.Wait()
+// quiesceTSI brings a tsi1 index to rest: Index.Wait alone is not a barrier,
+// because a finishing compaction decrements the counter and only then asks for
+// the follow-up compaction. Compact() starts whatever is due synchronously, so
+// a round in which it starts nothing means nothing is running or pending.
+func quiesceTSI(t *tsi1.Index) int {
+	rounds := 0
+	for {
+		t.Wait()
+		t.Compact()
+		busy := false
+		for i := 0; i < int(t.PartitionN); i++ {
+			if t.PartitionAt(i).CurrentCompactionN() > 0 {
+				busy = true
 			}
 		}
+		if !busy {
+			return rounds
+		}
+		rounds++
 	}
 }
 
-// WaitTSI waits for running tsi1 compactions.
+// CompactTSI asks every tsi1 index for a compaction and waits until the
+// partitions are quiet.
+func (e *Env) CompactTSI() {
+	e.WaitTSI()
+}
+
+// WaitTSI brings every tsi1 index to rest (running and due compactions done).
 func (e *Env) WaitTSI() {
 	for _, id := range e.ShardIDs {
 		if t := e.tsi(id); t != nil {
-			t.Wait()
+			quiesceTSI(t)
 		}
 	}
 }
@@ -569,4 +584,60 @@ func (e *Env) SketchEstimates() (series, tombSeries, meas int64, err error) {
 		return 0, 0, 0, err
 	}
 	return int64(ss.Count()), int64(ts.Count()), mc, nil
+}
+
+// DeletedIDs returns the ids counted by the shards' indexes although the series file has them deleted.
+func (e *Env) DeletedIDs(shards []uint64) map[uint64]struct{} {
+	out := map[uint64]struct{}{}
+	for _, id := range shards {
+		sh := e.Store.Shard(id)
+		if sh == nil {
+			continue
+		}
+		idx, err := sh.Index()
+		if err != nil {
+			continue
+		}
+		sf, err := sh.SeriesFile()
+		if err != nil {
+			continue
+		}
+		idx.SeriesIDSet().ForEach(func(sid uint64) {
+			if sf.IsDeleted(sid) {
+				out[sid] = struct{}{}
+			}
+		})
+	}
+	return out
+}
+
+// SeriesIDDetail lists the series ids a shard's index counts, resolved through the series file.
+func (e *Env) SeriesIDDetail(id uint64) []string {
+	sh := e.Store.Shard(id)
+	if sh == nil {
+		return nil
+	}
+	idx, err := sh.Index()
+	if err != nil {
+		return nil
+	}
+	sf, err := sh.SeriesFile()
+	if err != nil {
+		return nil
+	}
+	var out []string
+	idx.SeriesIDSet().ForEach(func(sid uint64) {
+		key := sf.SeriesKey(sid)
+		desc := "<no key in series file>"
+		if len(key) > 0 {
+			n, tags := tsdb.ParseSeriesKey(key)
+			tm := map[string]string{}
+			for _, t := range tags {
+				tm[string(t.Key)] = string(t.Value)
+			}
+			desc = show(seriesKey(string(n), tm))
+		}
+		out = append(out, fmt.Sprintf("shard %d id %d deleted-in-series-file=%v %s", id, sid, sf.IsDeleted(sid), desc))
+	})
+	return out
 }
